@@ -167,17 +167,16 @@ def det_choice(cands):
     return cands[0]
 
 
-def run_class(ctx, key):
+_GATING = {}
+
+
+def gating(key):
+    """(full_choice, defined, ever, alts_tried) for class `key`: which constructor fields change the encoding under
+    which KMIP version (differential encoding), cached."""
+    if key in _GATING:
+        return _GATING[key]
     S = schema()
-    rng = ctx.rng()
-    cls = S.classes[key]
     params = [p for p, c in S.params[key].items() if c]
-    if not params:
-        return
-    ctx.count('classes_exercised')
-    short_key = key.split('.', 1)[-1] if key.startswith('messages.') else key
-    cname = key.rsplit('.', 1)[-1] if '.' in key else key
-    cname = cls.__qualname__
     full_choice = {p: det_choice(S.params[key][p]) for p in params}
     # which params are encoded under which version
     defined = {}
@@ -213,6 +212,41 @@ def run_class(ctx, key):
             if d[p]:
                 ever.add(p)
         defined[v] = d
+    _GATING[key] = (full_choice, defined, ever, alts_tried)
+    return _GATING[key]
+
+
+_KEY_OF = {}
+
+
+def nested_defined(obj, p, v):
+    """Is constructor field p of the (nested) codec object obj encoded under version v?  Unknown -> True."""
+    S = schema()
+    if not _KEY_OF:
+        for k, c in S.classes.items():
+            _KEY_OF[c] = k
+    k = _KEY_OF.get(type(obj))
+    if k is None or not S.params.get(k):
+        return True
+    try:
+        d = gating(k)[1].get(v, {})
+    except Exception:
+        return True
+    return d.get(p) is not False
+
+
+def run_class(ctx, key):
+    S = schema()
+    rng = ctx.rng()
+    cls = S.classes[key]
+    params = [p for p, c in S.params[key].items() if c]
+    if not params:
+        return
+    ctx.count('classes_exercised')
+    short_key = key.split('.', 1)[-1] if key.startswith('messages.') else key
+    cname = key.rsplit('.', 1)[-1] if '.' in key else key
+    cname = cls.__qualname__
+    full_choice, defined, ever, alts_tried = gating(key)
     known_any = any(v is not None for d in defined.values() for v in d.values())
     if known_any:
         for p in params:
@@ -288,10 +322,11 @@ def run_class(ctx, key):
                 except Exception:
                     continue
                 if not CC.same(a, b, v):
-                    sub = CC.diff_path(a, b, v)
-                    ctx.violation('%s|mismatch:%s%s' % (cname, p, '.' + sub if sub else ''),
-                                  'field %s of %s decodes to %s, original %s (%s)' % (p, cname, short(b), short(a), v.name),
-                                  {'hex': data.hex()[:400], 'chosen': {q: [c[0], short(c[1])] for q, c in chosen.items()}})
+                    for sub in CC.diff_paths(a, b, v, is_defined=nested_defined):
+                        ctx.violation('%s|mismatch:%s%s' % (cname, p, '.' + sub if sub else ''),
+                                      'field %s%s of %s decodes to %s, original %s (%s)'
+                                      % (p, '.' + sub if sub else '', cname, short(b), short(a), v.name),
+                                      {'hex': data.hex()[:400], 'chosen': {q: [c[0], short(c[1])] for q, c in chosen.items()}})
             if all_defined and CC.has_own_eq(x) and not any(c[1] == [] for c in chosen.values()) and not (
                     v >= enums.KMIPVersion.KMIP_2_0 and any('objects.Attribute' in c[0] for c in chosen.values())):
                 try:
